@@ -43,9 +43,13 @@ type vVPC struct {
 	mu        sync.Mutex
 	state     map[string]vCloudEntry
 	described []string
+	delay     time.Duration // latency of a lookup: lets concurrent callers find a lookup of the same vSwitch in flight
 }
 
 func (f *vVPC) DescribeVSwitchByID(ctx context.Context, id string) (*vpc.VSwitch, error) {
+	if f.delay > 0 {
+		time.Sleep(f.delay)
+	}
 	f.mu.Lock()
 	defer f.mu.Unlock()
 	e, ok := f.state[id]
@@ -243,6 +247,9 @@ func TestVerifVSwitchConc(t *testing.T) {
 			f.state[id] = vCloudEntry{zone: zones[rng.Intn(2)], free: []int{0, 1, 5, 5}[rng.Intn(4)]}
 		}
 		w.Emit(vt.M{"ev": "reset", "scen": r, "cloud": cloudJSON(f.state)})
+		if r%3 == 0 {
+			f.delay = 3 * time.Millisecond // cold cache and a slow cloud: callers join lookups already in flight
+		}
 		if r%3 != 0 { // warm cache: fills are then out of the picture
 			c := 1
 			ids := append([]string{}, vIDs...)
